@@ -16,8 +16,9 @@ CHECKS = {
               "spec/N2KCodec.tla evaluated on the database (loaded from /repo/canboat.json at check time), including the "
               "must-return clause. MC_CodecLaws checks the oracle's bit arithmetic against TLC integers for all widths <= 8 (10 thorough)."),
         note=("Trusted: TLC; exact reading of database literals; 2^-50 relative float tolerance for 'value is this multiple "
-              "of the resolution'. Variable-position fields (after STRING_LAU/LZ, variable BINARY, KEY_VALUE) are checked "
-              "for metadata only; definitions containing a field type the generator rejects (19) are only required to fail."),
+              "of the resolution'. Fields without a fixed position are placed at the running offset (EffOff); STRING_LAU / STRING_LZ texts and "
+              "variable BINARY well-formedness are specified, KEY_VALUE fields for metadata only; INDIRECT_LOOKUP values "
+              "come from the database's indirect table; definitions containing a field type the generator rejects (19) are only required to fail."),
         design="5/C01",
         technique="TLA+ spec N2KCodec evaluated by TLC on recorded decodes of all generated decoders (record validation, sharded)",
     ),
@@ -55,7 +56,8 @@ CHECKS = {
               "packets by the matching discipline of N2KFraming. The real encoders' outputs for every encodable definition x four "
               "formats are judged by TLC (packet count per the specification's segmentation, sizes, identifier = Build, frame data, "
               "checksum, line structure, Actisense tokens), the matching real decoder must give back an equal projection, and "
-              "decode_usb must refuse every single-byte corruption of sampled packets."),
+              "decode_usb must refuse every single-byte corruption of sampled packets. A history pass repeats this with one long-lived "
+              "encoder and decoder per format, the same definition being sent again with another destination, source or priority."),
         note=("Trusted: TLC; text tokens read as hexadecimal by the harness; the encoder's own payload is the ground truth for the frame "
               "data (payload fidelity is C02). One known finding (empty payload through Actisense)."),
         design="5/C06",
@@ -119,7 +121,8 @@ CHECKS = {
               "cross-sections of the space (all 2^18 PGN fields; all priority x source pairs at PDU1/PDU2 "
               "boundary fields; every encodable PGN through three frame formats) and each record is judged by "
               "TLC against Parse/Build. The thorough tier also executes build(parse(id)) = id on the real code "
-              "for all 2^29 identifiers."),
+              "for all 2^29 identifiers. The public path uses one long-lived encoder and decoder per format and revisits a PGN, source "
+              "and priority with another destination."),
         note=("Trusted: TLC/Apalache; the harness's reading of identifier bytes at fixed packet offsets. "
               "The tuple space (2^37) is covered by cross-sections, not exhaustively."),
         design="5/C05",
@@ -214,7 +217,8 @@ CHECKS["C19"] = dict(
 
 _DEC = ("TLC model-checks spec/N2KDecoder.tla (MC_Decoder): a decoder built with a configuration, an unfiltered twin and a third "
         "independent instance; inputs are single frames of two PGNs and of two definitions sharing one PGN number, in-order and "
-        "truncated fast-packet frames, address claims with three NAMEs, unknown PGNs, bad inputs, and the end of the discovery window. ")
+        "truncated fast-packet frames, address claims with three NAMEs, unknown PGNs, frames of a known match-dispatched PGN that "
+        "match none of its definitions (for unfiltered decoders), bad inputs, and the end of the discovery window. ")
 _REPLAY = ("TLC then generates behaviours of a larger configuration (3 sources, 14 inputs); each is replayed into real decoder objects "
            "(list entries as numbers or ids / manufacturer names in random letter case, a settable clock for the discovery window) and "
            "the recorded history - output, content, attached identity per step, for the filtered decoder and its twin - is validated by "
@@ -234,7 +238,9 @@ CHECKS["C11"] = dict(
     text=(_DEC + "For manufacturer exclude / include lists, network map on / off and the claim PGN filtered or not TLC checks LatestClaim "
           "(every returned message carries the NAME of its source's latest claim, also when the claim arrives inside a fast-packet "
           "message), NoLeak, Discovery, Isolation (a claim never changes another address) and Returned (non-vacuity). " + _REPLAY +
-          "The decoded identity fields are covered by C01's validation of PGN 60928."),
+          "The identity object itself (unique number, manufacturer, instance, function, class, 64-bit NAME) attached to the claim "
+          "and to later messages of the claiming source is judged by TLC (Trace_Codec MODE=C11) on boundary and random NAMEs as the "
+          "specified function of the claim's fields, which C01's clauses tie to the payload bits."),
     note="Trusted: as C10; an unknown manufacturer code passes manufacturer lists (left unconstrained by the property).",
     design="5/C11",
     technique="TLA+ model of the decoder's source map and manufacturer / discovery filters model-checked by TLC; replayed behaviours validated by TLC",
